@@ -90,6 +90,9 @@ def run_dec(ctx, case):
         flat = np.concatenate([flat.real, flat.imag], axis=1)
     s = int(np.linalg.matrix_rank(flat, tol=1e-8 * max(1.0, np.abs(flat).max())))
     # a generic random family spans min(s, ambient) dimensions; s never exceeds the ambient dimension by construction
+    layout = ref.LAYOUTS[(case['prng'] // 7) % len(ref.LAYOUTS)]
+    ctx.label('layout=' + layout)
+    gens = ref.with_layout(gens, layout)  # same generators, other strides
     gens_before = gens.copy()
     basis, comp, char = nq.matrix_space.get_matrix_orthogonal_basis(gens, field=field)
     ctx.close(gens, gens_before, 0, 'decomposition does not modify the generators')
@@ -260,7 +263,12 @@ def run_nr(ctx, case):
         A = r.normal(size=(n, n))
     else:
         A = np.triu(ref.rand_complex(r, n, n), 1)
+    layout = ref.LAYOUTS[(case['prng'] // 7) % len(ref.LAYOUTS)]
+    ctx.label('layout=' + layout)
+    A = ref.with_layout(A, layout)
+    A_before = A.copy()
     z = nq.matrix_space.get_matrix_numerical_range(A, num_point=case['npt'])
+    ctx.close(A, A_before, 0, 'numerical range does not modify the matrix')
     ctx.require(z.shape == (case['npt'],), 'one point per direction')
     nrm = np.linalg.norm(A, 2)
     thetas = np.linspace(0, 2 * np.pi, case['npt'])
